@@ -293,23 +293,26 @@ def run_property(prop_id: str, tier: str, seed: int, replay_path=None, nproc=Non
         for kf in known:
             status = kf.get("status", "open")
             try:
-                res = mod.replay(kf["example"]) if kf.get("example") is not None else None
+                if kf.get("example") is None:
+                    allres = []
+                elif hasattr(mod, "replay_all"):
+                    allres = list(mod.replay_all(kf["example"]))
+                else:
+                    r1 = mod.replay(kf["example"])
+                    allres = [r1] if r1 is not None else []
             except Exception:
                 harness_errors.append(traceback.format_exc())
                 continue
             if status == "open":
-                if res is not None and key_matches(res["key"], [kf["key"]]):
+                if any(key_matches(r["key"], [kf["key"]]) for r in allres):
                     lines.append(f"KNOWN-FINDING: property={prop_id} {kf['what']} [key={kf['key']}]")
                     known_keys.append(kf["key"])
                     open_count += 1
-                elif res is not None:
-                    # example fails but with another key: a different violation
-                    failures.append(res)
                 else:
                     lines.append(f"NOTE: property={prop_id} listed finding no longer reproduces: {kf['key']}")
+                failures.extend(allres)  # other keys are filtered against known_keys below
             elif status == "fixed":
-                if res is not None:
-                    failures.append(res)
+                failures.extend(allres)
         corpus_dir = ROOT / "corpus" / prop_id
         corpus_n = 0
         if corpus_dir.is_dir():
